@@ -36,7 +36,9 @@ def main():
     args = [a for a in sys.argv[1:] if not a.startswith('--')]
     jobs = int(sys.argv[sys.argv.index('--jobs') + 1]) if '--jobs' in sys.argv else 4
     args = [a for a in args if not a.isdigit()]
-    dirs = sorted(d for d in glob.glob(os.path.join(HERE, 'seeded', '*')) if os.path.exists(os.path.join(d, 'patch.diff')) and (not args or os.path.basename(d)[:3] in args))
+    match = sys.argv[sys.argv.index('--match') + 1] if '--match' in sys.argv else ''
+    args = [a for a in args if a != match]
+    dirs = sorted(d for d in glob.glob(os.path.join(HERE, 'seeded', '*')) if os.path.exists(os.path.join(d, 'patch.diff')) and (not args or os.path.basename(d)[:3] in args) and match in os.path.basename(d))
     with mp.Pool(jobs) as pool:
         res = pool.map(one, dirs, chunksize=1)
     bad = [r for r in res if r[1] != 'caught']
